@@ -93,8 +93,9 @@ def cond_shape(t, atoms, memo=None):
                     flat.extend(_split_top(k[len(op) + 1:-1]))
                 else:
                     flat.append(k)
+            n_before = len(flat)
             kids = sorted(set(flat))
-            if len(kids) == 1 and op in ('and', 'or'):
+            if len(kids) == 1 and op in ('and', 'or') and n_before == 1:
                 r = kids[0]
         if r is None:
             r = '%s(%s)' % (op, ','.join(kids))
